@@ -114,6 +114,8 @@ def check_trace_panics(cx, chk):
             if q.startswith(p + "::{closure") and q not in seen:
                 work.append(q)
     n = 0
+    from . import guards
+    G = guards.Guards(cx, rt)
     for p in sorted(seen):
         b = cx.body(rt, p)
         for i, kind, t in c04.panic_sites(b):
@@ -124,6 +126,8 @@ def check_trace_panics(cx, chk):
             tag = "runtime %s %s" % (key[0], kind)
             if key in c04.RUNTIME_PANIC_TABLE:
                 chk.ok("C19.panic", tag, {"fn": key[0], "kind": kind, "reason": c04.RUNTIME_PANIC_TABLE[key]})
+            elif kind in ("assert:overflow_Sub", "assert:bounds") and G.verdicts(p).get(i) == "proved":
+                chk.ok("C19.panic", tag, {"fn": key[0], "kind": kind, "discharged_by": "the tests the function makes before the site exclude every value for which it fails"})
             else:
                 chk.violation("C19.panic", tag, "panic-capable construct (%s) in %s, which the tracer reaches: parsing with tracing could panic where the plain "
                               "parse returns a result" % (kind, key[0]), cx.site(b, i))
